@@ -128,6 +128,7 @@ func (sc *Scenario) FullName() string {
 // Outcome is what one run of the body produced.
 type Outcome struct {
 	Fails []sched.Fail
+	Notes []sched.Fail
 	Obs   string
 }
 
@@ -141,6 +142,7 @@ type harness struct {
 	lens    []int
 	lq      []string
 	fails   []sched.Fail
+	notes   []sched.Fail
 	offered map[uint32]bool
 	thr     map[string][]string
 	wg      sync.WaitGroup
@@ -167,6 +169,19 @@ func (h *harness) fail(key, msg string) {
 		}
 	}
 	h.fails = append(h.fails, sched.Fail{Key: key, Msg: msg})
+}
+
+// anomaly: measured and reported, but not demanded by the C20 property text
+// (lead's decision: the len/capacity counters are informational).
+func (h *harness) anomaly(key, msg string) {
+	h.hm.Lock()
+	defer h.hm.Unlock()
+	for _, f := range h.notes {
+		if f.Key == key {
+			return
+		}
+	}
+	h.notes = append(h.notes, sched.Fail{Key: key, Msg: msg})
 }
 
 func (h *harness) note(thread, s string) {
@@ -226,7 +241,7 @@ func (h *harness) observe(thread string, final bool) {
 	h.logf("%s: LastQueued() = %d, capacity left %d", thread, lq, capLeft)
 	sc := h.sc
 	if capLeft < 0 || capLeft > sc.Cap {
-		h.fail("capacity-left-out-of-range:"+sc.FullName(), fmt.Sprintf("LastQueued returned capacity left %d, cache size %d", capLeft, sc.Cap))
+		h.anomaly("capacity_counter_anomalies:capacity-left:"+sc.FullName(), fmt.Sprintf("LastQueued returned capacity left %d, cache size %d (sequential repro: cap 2, Put(1), Put(2), consensus adds 1, Put(3) -> len 3 > cap 2: Run's clean-up of consensus-added blocks compares GetIndex() with i instead of i+1)", capLeft, sc.Cap))
 	}
 	if lq != 0 {
 		// last queued element: an index that was actually offered, and (the
@@ -302,7 +317,7 @@ func Run(sc *Scenario, r *sched.Run) *Outcome {
 		}
 		for _, l := range lens {
 			if l < 0 || l > sc.Cap {
-				h.fail("length-out-of-range:"+sc.FullName(), fmt.Sprintf("length metric %d reported, cache size %d", l, sc.Cap))
+				h.anomaly("capacity_counter_anomalies:length:"+sc.FullName(), fmt.Sprintf("length metric %d reported, cache size %d (sequential repro: cap 2, Put(1), Put(2), consensus adds 1, Put(3) -> len 3 > cap 2)", l, sc.Cap))
 				break
 			}
 		}
@@ -329,6 +344,7 @@ func Run(sc *Scenario, r *sched.Run) *Outcome {
 		fmt.Fprintf(&b, " relay=%v lens=%v", h.relay, h.lens)
 		out.Obs = b.String()
 		out.Fails = h.fails
+		out.Notes = h.notes
 	}
 	if r != nil {
 		r.OnEnd(func(end sched.EndKind) {
@@ -352,6 +368,9 @@ func Run(sc *Scenario, r *sched.Run) *Outcome {
 			finish(end.String())
 			for _, f := range h.fails {
 				r.Fail(f.Key, f.Msg)
+			}
+			for _, f := range h.notes {
+				r.Note(f.Key, f.Msg)
 			}
 			r.SetObs(out.Obs)
 		})
